@@ -6,8 +6,8 @@ from sa.query import Facts, call_name, find_calls, try_fold, calls_in, defs_of
 from sa.prov import Prov
 from sa.layout import Layout
 from .common import dongle_classes, send_sites, firmware, fold_local, answer_field
-from sa.canon import fold_consts
-from sa.decide import Walker, completions
+from sa.canon import fold_consts, template_parts
+from sa.decide import Walker, completions, return_values
 from .c06 import _strip
 
 TECHNIQUE = ("literal agreement of the message template and EIP-191 prefix with the firmware headers, "
@@ -42,19 +42,27 @@ def run(run):
              "RSK_SIGNER_VERSION_MSG_P1/P2; _hash is hash.lower(); encode_eth_message(msg) == (ETHEREUM_MSG_PREFIX + "
              "str(len(msg)) + msg).encode('ascii'); get_authorization_digest == keccak_256(encode_eth_message(self.msg)).")
     msg = P.method(SV, "msg")
-    rr = [n for n in A.own_nodes(msg) if isinstance(n, ast.Return)]
-    run.require(len(rr) == 1 and isinstance(rr[0].value, ast.JoinedStr), "SignerVersion.msg is no longer a single f-string")
-    parts = []
-    for v in rr[0].value.values:
-        if isinstance(v, ast.Constant):
-            parts.append(("lit", v.value))
-        else:
-            parts.append(("expr", norm(v.value), v.conversion, v.format_spec))
+    # what msg returns, as a template: literal and value parts whatever the formatting idiom (f-string, .format, %, +), constants folded
+    def template_of(fn, cls, unwrap_call=None):
+        rv = return_values(A, fn, cls, PV)
+        if len(rv) != 1:
+            return None, None
+        try:
+            e = fold_consts(P, ast.parse(next(iter(rv)), mode="eval").body, fn, cls, locals_=set(fn.params))
+        except SyntaxError:
+            return None, None
+        outer = None
+        if unwrap_call is not None:
+            if not (isinstance(e, ast.Call) and isinstance(e.func, ast.Attribute) and e.func.attr == unwrap_call):
+                return None, None
+            outer, e = e, e.func.value
+        return template_parts(e), outer
+    parts, _ = template_of(msg, SV)
+    run.require(parts is not None, "SignerVersion.msg is not a string template (f-string, .format, % or + of literals and values)")
     p1 = fw.define("ledger/ui/src/signer_authorization.h", "RSK_SIGNER_VERSION_MSG_P1")
     p2 = fw.define("ledger/ui/src/signer_authorization.h", "RSK_SIGNER_VERSION_MSG_P2")
-    want = [("lit", p1), ("expr", "self._hash", -1, None), ("lit", p2), ("expr", "str(self._iteration)", -1, None)]
-    alt = [("lit", p1), ("expr", "self._hash", -1, None), ("lit", p2), ("expr", "self._iteration", -1, None)]
-    run.check("R1", parts in (want, alt), "msg template == firmware literals around hash and decimal iteration",
+    want = [("lit", p1), ("expr", "self._hash"), ("lit", p2), ("expr", "self._iteration")]
+    run.check("R1", parts == want, "msg template == firmware literals around hash and decimal iteration",
               key="SignerVersion.msg|template", where=msg.loc(),
               message=f"SignerVersion.msg is built from {parts}; the firmware checks `{p1}<hash>{p2}<iteration>`")
     ini = P.method(SV, "__init__")
@@ -67,13 +75,9 @@ def run(run):
     ee = P.func("admin.ledger_utils.encode_eth_message")
     rr = [n for n in A.own_nodes(ee) if isinstance(n, ast.Return)]
     pre = fw.define("common/src/eth.h", "ETHEREUM_MSG_PREFIX")
-    okp = False
-    if len(rr) == 1 and isinstance(rr[0].value, ast.Call) and call_name(rr[0].value) == "encode" \
-            and [norm(a) for a in rr[0].value.args] == ["'ascii'"] and isinstance(rr[0].value.func.value, ast.JoinedStr):
-        js = rr[0].value.func.value
-        pp = [("lit", v.value) if isinstance(v, ast.Constant) else ("expr", norm(v.value)) for v in js.values]
-        p = ee.params[0]
-        okp = pp == [("lit", pre), ("expr", f"str(len({p}))"), ("expr", p)] or pp == [("lit", pre), ("expr", f"len({p})"), ("expr", p)]
+    pp, outer = template_of(ee, None, unwrap_call="encode")
+    p = ee.params[0]
+    okp = pp == [("lit", pre), ("expr", f"len({p})"), ("expr", p)] and outer is not None and [norm(a) for a in outer.args] == ["'ascii'"] and not outer.keywords
     run.check("R1", okp, "EIP-191 wrapping == firmware ETHEREUM_MSG_PREFIX + decimal length + message",
               key="encode_eth_message|template", where=ee.loc(), message="encode_eth_message does not build "
               f"{pre!r} + str(len(msg)) + msg encoded as ASCII")
@@ -241,16 +245,23 @@ def run(run):
                     return f
         return None
     ok_early = False
+    live = g.reachable(g.entry)
+    noexc_ = lambda a, b: not g.is_exc_edge(a, b)   # noqa: E731
+    send_nodes = set(g.nodes_of(sign_send)) if sign_send is not None else set()
+    # inside the loop, once the answer is known to be SUCCESS nothing is sent any more (early return, break, flag + break ...)
+    in_loop_success = [n_ for n_ in g.nodes if n_.kind == "stmt" and n_ in live and g.in_loop(n_) is not None and n_ not in send_nodes
+                       and success_fact(n_) is not None]
+    ok_early = bool(in_loop_success) and not any(sn in g.reachable(n_, edge_ok=noexc_) for n_ in in_loop_success for sn in send_nodes)
     for r in rets:
         if isinstance(r.value, ast.Constant) and r.value.value is True:
             for rn in g.nodes_of(r):
+                if rn not in live:
+                    continue        # unreachable code
                 sf = success_fact(rn)
                 run.check("R3", sf is not None, "success only when the device said so",
                           key=f"authorize_signer|return-True|guard", where=au.loc(r),
                           message="authorize_signer can return True although the device never answered SUCCESS (e.g. no "
                                   "signatures given, or an answer that is neither MORE nor SUCCESS)")
-                if sf is not None and loops and g.in_loop(rn) is not None and any(r is x for x in ast.walk(loops[0])):
-                    ok_early = True
         else:
             run.fail("R3", f"authorize_signer|return {norm(r.value)}", au.loc(r), f"authorize_signer returns `{norm(r.value)}`")
     run.check("R3", ok_early, "stops sending once the device reports the signer authorized", key="authorize_signer|early-stop",
@@ -280,9 +291,18 @@ def run(run):
     got = {k.value: norm(v) for k, v in zip(d.keys, d.values)}
     run.check("R4", got == {"hash": "self.hash", "iteration": "self.iteration"}, "version to_dict", key="SignerVersion.to_dict|shape",
               where=tv.loc(), message=f"SignerVersion.to_dict is {got}")
-    src = norm(fj.node)
+    # every subscript expression of the loader, with locals (e.g. a name for the `signer` sub-map) expanded to what they stand for
+    gfj = A.cfg(fj, SA)
+    src = set()
+    for n_ in A.own_nodes(fj):
+        if isinstance(n_, ast.Subscript) and isinstance(n_.ctx, ast.Load):
+            for cn_ in gfj.nodes_of(n_):
+                try:
+                    src |= {_strip(x) for x in PV.expand_consistent(fj, SA, n_, cn_, stop=("signer_auth_map",))}
+                except AnalysisError:
+                    src.add(_strip(norm(n_)))
     for k in ("signer_auth_map['signer']['hash']", "signer_auth_map['signer']['iteration']", "signer_auth_map['signatures']", "signer_auth_map['version']"):
-        run.check("R4", k in src, f"loader reads {k}", key=f"SignerAuthorization.from_jsonfile|reads|{k}", where=fj.loc(),
+        run.check("R4", _strip(k) in src, f"loader reads {k}", key=f"SignerAuthorization.from_jsonfile|reads|{k}", where=fj.loc(),
                   message=f"from_jsonfile no longer reads {k}")
     for prop, fld in (("hash", "_hash"), ("iteration", "_iteration")):
         pf = P.method(SV, prop)
